@@ -499,7 +499,7 @@ def run(ctx: core.Ctx):
     flag_names = ["slice", "element_at", "try_element_at", "rint", "sequence", "unix_millis", "array_position(NULL)",
                   "nanvl(NULL)", "levenshtein(NULL)", "slice(negative start)", "factorial(outside 0..20)", "array_append(NULL)",
                   "array_union(NULL)", "overlay(NULL)", "concat(NULL)", "left/right(negative length)", "trunc/date_trunc unit spellings",
-                  "substr(position 0)", "soundex (strings starting with a letter)"]
+                  "substr(position 0)", "soundex (every string)"]
     verdicts = {}
     if proved:
         outp = ctx.coq_eval("From Coq Require Import List Bool.\nFrom SF Require Import C17.Emul C17.Emul2 C17.EmulCheck.\nFrom Gen Require Import C17Facts.\n"
@@ -509,7 +509,7 @@ def run(ctx: core.Ctx):
                             "slice_rebase_exact c17_slice_rebase && slice_cfg_ok c17_slice; fact_guard_exact c17_fact_guard; c17_append_guard; "
                             "c17_union_guard; match c17_overlay_glue with GluePipes => true | _ => false end; "
                             "match c17_concat_glue with GluePipes => true | _ => false end; "
-                            "floor_exact c17_left_floor && floor_exact c17_right_floor; units_table_ok c17_trunc_units; remap_exact c17_substr_remap; soundex_cfg_ok c17_soundex].",
+                            "floor_exact c17_left_floor && floor_exact c17_right_floor; units_table_ok c17_trunc_units; remap_exact c17_substr_remap; soundex_cfg_exact c17_soundex].",
                             "flags")
         import re as _re
         vals = _re.findall(r"\b(true|false)\b", outp.split("=", 1)[1] if "=" in outp else "")
